@@ -392,13 +392,17 @@ func (ni *nodeInst) exec(o string) string {
 		if e1 != nil || e2 != nil || (f[3] != "0" && f[3] != "1") {
 			return "bad-op"
 		}
+		// at least one refuting goroutine is started when a claim is newer than the own status time; under
+		// load it may take longer than the quiet window to be scheduled, so the quiet window only counts
+		// once the first join has been seen (or when none is due)
+		expectAny := ni.selfClaimNewer(a) || ni.selfClaimNewer(b)
 		dg.NotifyMsg(serf.VerifEncodeLeave(a, nodeSelf, false))
 		dg.NotifyMsg(serf.VerifEncodeLeave(b, nodeSelf, f[3] == "1"))
 		var maxJoin uint64
 		joins := 0
-		deadline := time.Now().Add(3 * time.Second)
+		deadline := time.Now().Add(10 * time.Second)
 		quiet := time.Now()
-		for time.Now().Before(deadline) && time.Since(quiet) < 150*time.Millisecond {
+		for time.Now().Before(deadline) && ((expectAny && joins == 0) || time.Since(quiet) < 150*time.Millisecond) {
 			for _, raw := range ni.s.VerifDrainIntentQueue() {
 				d := serf.VerifDecodeIntent(raw)
 				if !d.Other && !d.Leave && d.Node == nodeSelf {
